@@ -150,7 +150,7 @@ def api_graphs(ctx, nbuilds):
         sg = idx._search_graph.tocsr()
         vorder = np.asarray(idx._vertex_order).tolist()
         maxdeg = int(np.round(pdm * kw["n_neighbors"]))
-        kd = np.where(kd == 0, EPS, kd).astype(np.float32)
+        kd = np.where(kd <= 0, EPS, kd).astype(np.float32)   # _init_search_graph maps non-positive lengths to FLOAT32_EPS
         kk = ki.shape[1]
         rows = [sg.indices[sg.indptr[a]:sg.indptr[a + 1]].tolist() for a in range(n)] if sg.shape == (n, n) else []
         kdk = nnd_corr.mat_keys(kd)
